@@ -9,6 +9,7 @@ import (
 	"go/types"
 	"sort"
 	"strings"
+	"sync"
 
 	"golang.org/x/tools/go/ast/astutil"
 	"golang.org/x/tools/go/packages"
@@ -35,6 +36,9 @@ type Engine struct {
 	tier           string
 	updatingLedger bool
 	noRetry        map[string]bool // obligation groups recorded as known findings: expected to fail
+	provedBefore   map[string]bool // obligation groups the ledger records as discharged on the unchanged tree
+	quietMu        sync.Mutex
+	quietLeft      int
 	timeoutMs      int
 	verbose        bool
 	tmpdir         string
